@@ -64,6 +64,8 @@ def check_c11(case):
     if t is not None:
         with_sol = sum(1 for s_ in t.streams if len(s_) > 1)
         nt = nworkers >= 2 and with_sol >= 2 and t.order != sorted(t.order)
+        if t.empties:
+            tags.append("parent-timeouts")
         if any(len(s_) == 1 for s_ in t.streams):
             tags.append("worker-without-solution")
         if t.gets != t.total():
@@ -115,7 +117,7 @@ def c11_case(draw, tier, real=False):
     if real:
         case["real"] = True
     else:
-        case["mp"]["schedule"] = draw(st.lists(st.integers(0, 4), max_size=30))
+        case["mp"]["schedule"] = draw(st.lists(st.sampled_from([0, 1, 2, 3, 4, 0, 1, 2, -1, -1]), max_size=40))
         case["mp"]["late"] = draw(st.lists(st.integers(0, 3), min_size=1, max_size=5))
     return case
 
